@@ -498,7 +498,9 @@ impl<const LEVELS: usize> OrderBook<LEVELS> {
             self.match_bid(order_entry);
         }
         if order_entry.order.status != Status::Filled {
-            let key: OrderKey = (Side::Bid, order_entry.key.1, self.t);
+            let key: OrderKey = self
+                .bid_side
+                .queue_key((Side::Bid, order_entry.key.1, self.t));
             order_entry.key = key;
             self.bid_side
                 .insert_order(key, order_entry.order.order_id, order_entry.order.vol)
@@ -541,7 +543,9 @@ impl<const LEVELS: usize> OrderBook<LEVELS> {
             self.match_ask(order_entry);
         }
         if order_entry.order.status != Status::Filled {
-            let key: OrderKey = (Side::Ask, order_entry.key.1, self.t);
+            let key: OrderKey = self
+                .ask_side
+                .queue_key((Side::Ask, order_entry.key.1, self.t));
             order_entry.key = key;
             self.ask_side
                 .insert_order(key, order_entry.order.order_id, order_entry.order.vol)
@@ -700,7 +704,7 @@ impl<const LEVELS: usize> OrderBook<LEVELS> {
         if order_entry.order.status != Status::Filled {
             match order_entry.key.0 {
                 crate::types::Side::Bid => {
-                    let key: OrderKey = get_bid_key(self.t, new_price);
+                    let key: OrderKey = self.bid_side.queue_key(get_bid_key(self.t, new_price));
                     order_entry.key = key;
 
                     self.bid_side.insert_order(
@@ -710,7 +714,7 @@ impl<const LEVELS: usize> OrderBook<LEVELS> {
                     );
                 }
                 crate::types::Side::Ask => {
-                    let key: OrderKey = get_ask_key(self.t, new_price);
+                    let key: OrderKey = self.ask_side.queue_key(get_ask_key(self.t, new_price));
                     order_entry.key = key;
 
                     self.ask_side.insert_order(
